@@ -83,6 +83,24 @@ def reg_repr():
     check_same("pure", before, snapshot(rf))
 
 
+@unit("C17/RegisterFile.reg_repr/x0-after-a-write-to-x0")
+def reg_repr_x0():
+    """x0 is hard-wired to zero: whatever an instruction with destination x0 has 'written', the table shows 0 -- the value
+    every instruction reads"""
+    rf = RegisterFile()
+    rf.registers[0] = sym_fixed("written_to_x0", UInt32)
+    rf.registers[5] = sym_fixed("x5", UInt32)
+    r = rf.reg_repr()
+    e0 = expected(0, 32)
+    check("x0_row_shows_zero", r[0][0] == e0[0] and r[0][1] == e0[1] and r[0][2] == e0[2] and r[0][3] == e0[3])
+    check("x0_reads_zero", int(rf.registers[0]) == 0)
+    e5 = expected(int(rf.registers[5]), 32)
+    check("x5_row", r[5][0] == e5[0] and r[5][1] == e5[1] and r[5][2] == e5[2] and r[5][3] == e5[3])
+    sim = RiscvSimulation()
+    sim.state.register_file.registers[0] = sym_fixed("written_to_x0_b", UInt32)
+    check("register_table_of_the_simulation", sim.get_register_entries()[0][1] == "0")
+
+
 @unit("C17/ToySimulation.get_register_representations")
 def toy_regs():
     sim = ToySimulation()
